@@ -353,8 +353,18 @@ fn build_prefix(ops: &[Op]) -> Value {
 }
 
 pub fn run_ops(sid: &str, tag: &Value, ops: &[Op], out: &mut dyn Write) -> usize {
+    run_ops_in(sid, tag, ops, out, true)
+}
+
+/// `opens` = this call sequence opens a new session (otherwise it continues the current one, so
+/// that the orchestrator keeps related call sequences together and in order).
+pub fn run_ops_in(sid: &str, tag: &Value, ops: &[Op], out: &mut dyn Write, opens: bool) -> usize {
     let mut n = 0;
-    writeln!(out, "{}", json!({"fam": "builder", "sid": sid, "op": "BReset", "tag": tag})).unwrap();
+    if opens {
+        writeln!(out, "{}", json!({"fam": "builder", "sid": sid, "op": "BReset", "tag": tag})).unwrap();
+    } else {
+        writeln!(out, "{}", json!({"sid": sid, "op": "BReset", "tag": tag})).unwrap();
+    }
     n += 1;
     let mut done: Vec<Op> = Vec::new();
     for op in ops {
@@ -409,8 +419,35 @@ pub fn run_ops(sid: &str, tag: &Value, ops: &[Op], out: &mut dyn Write) -> usize
 
 pub fn run_builder_scenario(v: &Value, idx: usize, out: &mut dyn Write) -> usize {
     let sid = v["sid"].as_str().map(|s| s.to_string()).unwrap_or(format!("scn-{}", idx));
+    let default_tag = json!({"g": "scenario"});
+    if let Some(parts) = v.get("parts").and_then(|p| p.as_array()) {
+        let mut n = 0;
+        for (i, part) in parts.iter().enumerate() {
+            let ops: Vec<Op> = part["ops"].as_array().unwrap().iter().map(op_from).collect();
+            n += run_ops_in(&sid, part.get("tag").unwrap_or(&default_tag), &ops, out, i == 0);
+            maybe_parse_back(&sid, part.get("tag").unwrap_or(&default_tag), &ops, out, &mut n);
+        }
+        return n;
+    }
     let ops: Vec<Op> = v["ops"].as_array().unwrap().iter().map(op_from).collect();
-    run_ops(&sid, v.get("tag").unwrap_or(&json!({"g": "scenario"})), &ops, out)
+    let tag = v.get("tag").unwrap_or(&default_tag);
+    let mut n = run_ops(&sid, tag, &ops, out);
+    maybe_parse_back(&sid, tag, &ops, out, &mut n);
+    n
+}
+
+/// Sessions tagged `bwire` are followed by a parse of what they built.
+fn maybe_parse_back(sid: &str, tag: &Value, ops: &[Op], out: &mut dyn Write, n: &mut usize) {
+    if tag["g"] != "bwire" || ops.is_empty() {
+        return;
+    }
+    let done: Vec<Op> = ops.iter().filter(|o| !matches!(o, Op::Build)).cloned().collect();
+    let built = build_prefix(&done);
+    if built["k"] == "ok" {
+        let bytes = unrl(&built["v"]);
+        writeln!(out, "{}", json!({"sid": sid, "op": "ParseBack", "input": rl(&bytes), "obs": v2_bytes(&bytes, true)})).unwrap();
+        *n += 1;
+    }
 }
 
 // ---- writer family ---------------------------------------------------------------------------
@@ -680,8 +717,8 @@ pub fn generate_builder(name: &str, count: usize, rng: &mut Rng, out: &mut dyn W
                     b.push(Op::Writes(ps[cut..].to_vec()));
                 }
                 b.push(Op::Build);
-                n += run_ops(&format!("bpairs-{}a", i), &json!({"g": "bpairs", "pair": i, "side": "a"}), &a, out);
-                n += run_ops(&format!("bpairs-{}b", i), &json!({"g": "bpairs", "pair": i, "side": "b"}), &b, out);
+                n += run_ops(&format!("bpairs-{}", i), &json!({"g": "bpairs", "pair": i, "side": "a"}), &a, out);
+                n += run_ops_in(&format!("bpairs-{}", i), &json!({"g": "bpairs", "pair": i, "side": "b"}), &b, out, false);
             }
         }
         // C07 shape: valid codes, TLVs only, then the built header is parsed back
@@ -708,15 +745,9 @@ pub fn generate_builder(name: &str, count: usize, rng: &mut Rng, out: &mut dyn W
                     ops.push(Op::WriteTlv(Kind::Named(Type::NoOp), vec![0x5a; limit - used - 3]));
                 }
                 ops.push(Op::Build);
-                n += run_ops(&format!("bwire-{}", i), &json!({"g": "bwire"}), &ops, out);
-                // parse back what was built
-                let done: Vec<Op> = ops[..ops.len() - 1].to_vec();
-                let built = build_prefix(&done);
-                if built["k"] == "ok" {
-                    let bytes = unrl(&built["v"]);
-                    writeln!(out, "{}", json!({"sid": format!("bwire-{}", i), "op": "ParseBack", "input": rl(&bytes), "obs": v2_bytes(&bytes, true)})).unwrap();
-                    n += 1;
-                }
+                let tag = json!({"g": "bwire"});
+                n += run_ops(&format!("bwire-{}", i), &tag, &ops, out);
+                maybe_parse_back(&format!("bwire-{}", i), &tag, &ops, out, &mut n);
             }
         }
         // C13: parse a header, then rebuild it from the observed parts
@@ -771,7 +802,7 @@ pub fn rebuild_sessions(sid: &str, input: &[u8], out: &mut dyn Write) -> usize {
     };
     let (vc, afp) = (raw[12], raw[13]);
     let ops = vec![Op::New { vc, afp }, Op::Write(Payload::Slice(ab.clone())), Op::Write(Payload::Slice(tb.clone())), Op::Build];
-    n += run_ops(&format!("{}-raw", sid), &json!({"g": "rebuild", "mode": "raw", "of": sid}), &ops, out);
+    n += run_ops_in(sid, &json!({"g": "rebuild", "mode": "raw", "of": sid}), &ops, out, false);
     if items.iter().all(|r| r.is_ok()) {
         let mut ops = vec![Op::New { vc, afp }, Op::Write(Payload::Slice(ab.clone()))];
         for r in &items {
@@ -779,11 +810,11 @@ pub fn rebuild_sessions(sid: &str, input: &[u8], out: &mut dyn Write) -> usize {
             ops.push(Op::WriteTlv(Kind::Raw(k), v));
         }
         ops.push(Op::Build);
-        n += run_ops(&format!("{}-items", sid), &json!({"g": "rebuild", "mode": "items", "of": sid}), &ops, out);
+        n += run_ops_in(sid, &json!({"g": "rebuild", "mode": "items", "of": sid}), &ops, out, false);
     }
     if !matches!(addresses, v2::Addresses::Unspecified) {
         let ops = vec![Op::With { vc, tr: protocol, addr: addresses }, Op::Write(Payload::Tlvs(tb.clone())), Op::Build];
-        n += run_ops(&format!("{}-addr", sid), &json!({"g": "rebuild", "mode": "addr", "of": sid}), &ops, out);
+        n += run_ops_in(sid, &json!({"g": "rebuild", "mode": "addr", "of": sid}), &ops, out, false);
     }
     n
 }
